@@ -2,15 +2,17 @@
  * libovni of the check's build.
  *
  *   rtfs_prog <seq|pth> <thread-spec>...
- *   thread-spec = tid:nflush:nev[:align]
+ *   thread-spec = tid:nflush:nev[:align[:tail]]
  *
  * proc_init("L", 77); every thread (its own pthread: libovni keeps the thread
  * state in TLS and a finished thread cannot be initialised again) does
- *   ovni_thread_init(tid); [thread 0: ovni_add_cpu for all] ; OHx ;
+ *   ovni_thread_init(tid); ovni_add_cpu for all threads' CPUs ; OHx ;
  *   nflush segments { nev pause/resume pairs ; last segment: OHe ; ovni_flush() }
  *   (nflush = 0: OHx, OHe are emitted but never flushed) ; ovni_thread_free()
  * then ovni_proc_fini().  With align > 0 the first segment is padded so that the
  * stream has exactly <align> bytes at the end of the last event of that segment.
+ * tail = number of additional ovni_flush() calls after the last segment (each
+ * writes the OF[ OF] pair left in the buffer by the previous flush).
  * seq: threads run one after another; pth: concurrently.
  * OVNI_TRACEDIR / OVNI_TMPDIR come from the environment.  Clocks are
  * ovni_clock_now() (libovni stamps its own OF[ OF] events with it), so stream
@@ -25,7 +27,7 @@
 #include "ovni.h"
 
 struct tspec {
-	int idx, tid, nflush, nev, align;
+	int idx, tid, nflush, nev, align, tail;
 };
 
 static int nthreads;
@@ -53,9 +55,8 @@ run_thread(void *arg)
 	size_t pos = 8; /* stream header */
 
 	ovni_thread_init(s->tid);
-	if (s->idx == 0)
-		for (int i = 0; i < nthreads; i++)
-			ovni_add_cpu(i, i);
+	for (int i = 0; i < nthreads; i++)
+		ovni_add_cpu(i, i);
 
 	struct {
 		int32_t cpu, creator;
@@ -101,6 +102,9 @@ run_thread(void *arg)
 		pos += 24; /* OF[ OF] left in the buffer */
 	}
 
+	for (int j = 0; j < s->tail; j++)
+		ovni_flush();
+
 	ovni_thread_free();
 	return NULL;
 }
@@ -109,7 +113,7 @@ int
 main(int argc, char *argv[])
 {
 	if (argc < 3) {
-		fprintf(stderr, "usage: rtfs_prog seq|pth tid:nflush:nev[:align]...\n");
+		fprintf(stderr, "usage: rtfs_prog seq|pth tid:nflush:nev[:align[:tail]]...\n");
 		return 2;
 	}
 	int conc = strcmp(argv[1], "pth") == 0;
@@ -117,8 +121,9 @@ main(int argc, char *argv[])
 	for (int i = 0; i < nthreads; i++) {
 		specs[i].idx = i;
 		specs[i].align = 0;
-		if (sscanf(argv[i + 2], "%d:%d:%d:%d", &specs[i].tid, &specs[i].nflush,
-				    &specs[i].nev, &specs[i].align) < 3) {
+		specs[i].tail = 0;
+		if (sscanf(argv[i + 2], "%d:%d:%d:%d:%d", &specs[i].tid, &specs[i].nflush,
+				    &specs[i].nev, &specs[i].align, &specs[i].tail) < 3) {
 			fprintf(stderr, "bad thread spec %s\n", argv[i + 2]);
 			return 2;
 		}
